@@ -100,6 +100,29 @@ EdgesB2 == {<<"v", "p">>, <<"z", "v">>, <<"y", "v">>}
 TipsPlant == {[n \in HB |-> IF n = "p" THEN "a3" ELSE "a2"]}
 PlantTops == {"w3", "a3"}
 
+\* equal-height competing tips, then one node extends its fork by one block (TreeD): n1 on a3, n2 on b3,
+\* b4 is mined by n2 once the forks have been exchanged
+TreeD == WithId([
+  par |-> [g |-> "g", t1 |-> "g", a2 |-> "t1", a3 |-> "a2", b2 |-> "t1", b3 |-> "b2", b4 |-> "b3"],
+  h   |-> [g |-> 0, t1 |-> 1, a2 |-> 2, a3 |-> 3, b2 |-> 2, b3 |-> 3, b4 |-> 4],
+  cls |-> [g |-> "ok", t1 |-> "ok", a2 |-> "ok", a3 |-> "ok", b2 |-> "ok", b3 |-> "ok", b4 |-> "ok"],
+  lo  |-> [g |-> 0, t1 |-> 1, a2 |-> 2, a3 |-> 3, b2 |-> 2, b3 |-> 3, b4 |-> 4],
+  hi  |-> [g |-> 0, t1 |-> 1, a2 |-> 2, a3 |-> 3, b2 |-> 2, b3 |-> 3, b4 |-> 4]])
+TipsGrow == {[n \in H2 |-> IF n = "n1" THEN "a3" ELSE "b3"]}
+MineD == {"b4"}
+MinerD == [x \in MineD |-> "n2"]
+NoMiner == [x \in {} |-> "n1"]
+
+\* ID twin, poison-then-heal: victim v on its own fork b2-b3, honest p on a2-a3-a4; z holds the prefix a2-a3
+TreeT == WithId([
+  par |-> [g |-> "g", t1 |-> "g", a2 |-> "t1", a3 |-> "a2", a4 |-> "a3", b2 |-> "t1", b3 |-> "b2"],
+  h   |-> [g |-> 0, t1 |-> 1, a2 |-> 2, a3 |-> 3, a4 |-> 4, b2 |-> 2, b3 |-> 3],
+  cls |-> [g |-> "ok", t1 |-> "ok", a2 |-> "ok", a3 |-> "ok", a4 |-> "ok", b2 |-> "ok", b3 |-> "ok"],
+  lo  |-> [g |-> 0, t1 |-> 1, a2 |-> 2, a3 |-> 3, a4 |-> 4, b2 |-> 2, b3 |-> 3],
+  hi  |-> [g |-> 0, t1 |-> 1, a2 |-> 2, a3 |-> 3, a4 |-> 4, b2 |-> 2, b3 |-> 3]])
+TipsTwin == {[n \in HB |-> IF n = "p" THEN "a4" ELSE "b3"]}
+TwinTops == {"a3", "a4"}
+
 \* ---- edge export (Leg R): printed once per explored transition, evaluated as ACTION_CONSTRAINT.
 \* The complete state is printed (the replay driver computes quiescent macro-steps on it and the Go
 \* harness compares the projection tip / known / link / banned with the real nodes).
